@@ -46,6 +46,8 @@ def behaviour(draw, typ, n_ent, rt=False):
     b = {}
     if typ == "time-based":
         b["steps"] = draw(st.lists(st.integers(1, 3), min_size=1, max_size=3))
+        if draw(st.integers(0, 5)) == 0:
+            b["const_po"] = True          # constant measurement, identical reply object handed out again
     else:
         b["steps"] = draw(st.lists(st.sampled_from([0, 0, 1, 1, 2, 3]), min_size=1, max_size=4))
         b["emit"] = draw(st.lists(st.integers(0, 2 ** n_ent - 1) | st.just(2 ** n_ent - 1),
@@ -282,6 +284,13 @@ def micro_scenarios():
                  _sim("C", "event-based", emit=[1], future=[5])],
         "conns": [_c("B", "eo", "A", "ti", weak=True), _c("C", "eo", "A", "ti")],
         "initial_events": {"B": 0, "C": 0}, "until": 7}
+    # a producer whose measurement does not change (it hands out the identical reply object again) and a consumer
+    # that steps between two producer steps, plus an unrelated third simulator
+    out["const_producer_fast_consumer"] = {
+        "tree": ["A", "B", "C"],
+        "sims": [_sim("A", "time-based", steps=[3], const_po=True), _sim("B", "time-based", steps=[1]),
+                 _sim("C", "time-based", steps=[2])],
+        "conns": [_c("A", "po", "B", "mi")], "until": 7}
     for s in out.values():
         s.setdefault("initial_events", {})
         s.setdefault("world", {"cache": True})
